@@ -69,10 +69,142 @@ def parseOp (toks : List String) : Option Op :=
   | "search" :: rest => do let c ← (kv rest "c") >>= hx?; pure (.search c)
   | _ => none
 
+/-! ### the concurrent phase: the two-atomic-step model `crun` on the schedules the storm produced
+
+Between `storm begin` and `storm end` every line is `w=<client> u=… <op> t=<t0>:<t1> r=<response>`: a request
+of the concurrent phase with the values of a global sequence counter the harness's client wrapper read just
+before sending it and just after receiving the answer, and the answer the real node gave.  Request A is known
+to precede request B when `t1(A) < t0(B)`; requests whose windows overlap were in flight together, in an order
+nobody observed.  The driver looks for SOME schedule of `crun` (the transition system of `C16_concurrent` /
+`C16_any_interleaving`: a collection-scoped request = look-up step + handler step) that respects this partial
+order and the order of each client's own requests and in which every request gets the observed answer:
+depth-first, candidates ordered by the time stamp of their next event (so the first path is "look-up at t0,
+handler at t1"), pruned at the first answer that differs, with a step budget.  The schedule found is then run
+through `crun` itself and the answers printed are read off the clients `crun` returns. -/
+
+instance : Inhabited Client := ⟨{ user := [], todo := [] }⟩
+
+structure SReq where
+  client : Nat
+  op : Op
+  t0 : Nat
+  t1 : Nat
+  obs : String
+
+instance : Inhabited SReq := ⟨{ client := 0, op := .list, t0 := 0, t1 := 0, obs := "" }⟩
+
+def parseStormLine (line : String) : Option (Nat × Bytes × SReq) :=
+  let toks := (line.trimAscii.toString.splitOn " ").filter (· ≠ "")
+  match toks with
+  | w :: u :: rest =>
+    if w.startsWith "w=" && u.startsWith "u=" then do
+      let k ← (w.drop 2).toString.toNat?
+      let user ← hx? (u.drop 2).toString
+      let op ← parseOp rest
+      let t ← kv rest "t"
+      let (a, b) ← (match t.splitOn ":" with
+        | [a, b] => do let x ← a.toNat?; let y ← b.toNat?; pure (x, y)
+        | _ => none)
+      let r ← kv rest "r"
+      pure (k, user, { client := k, op := op, t0 := a, t1 := b, obs := r.replace "_" " " })
+    else none
+  | _ => none
+
+structure SearchSt where
+  node : Node
+  clients : Array Client
+  /-- requests completed per client -/
+  done : Array Nat
+  sched : List Nat      -- reversed
+
+/-- may client `i` start its next request: everything known to have ended before it started is complete -/
+def mayStart (reqs : Array (Array SReq)) (done : Array Nat) (i : Nat) : Bool :=
+  match (reqs[i]!)[done[i]!]? with
+  | none => false
+  | some r =>
+    (List.range reqs.size).all fun j =>
+      j == i || ((reqs[j]!).toList.drop (done[j]!)).all fun q => !(q.t1 < r.t0)
+
+/-- the time stamp of the next event of client `i` (handler step: t1 of the request in flight; look-up: t0) -/
+def nextStamp (reqs : Array (Array SReq)) (s : SearchSt) (i : Nat) : Nat :=
+  match (reqs[i]!)[s.done[i]!]? with
+  | none => 0
+  | some r => if (s.clients[i]!).inflight.isSome then r.t1 else r.t0
+
+partial def dfs (cfg : Cfg) (reqs : Array (Array SReq)) (budget : IO.Ref Nat) (s : SearchSt) : IO (Option SearchSt) := do
+  if (List.range reqs.size).all (fun i => s.done[i]! == (reqs[i]!).size) then return some s
+  if (← budget.get) == 0 then return none
+  budget.modify (· - 1)
+  let cands := (List.range reqs.size).filter fun i =>
+    (s.clients[i]!).inflight.isSome || mayStart reqs s.done i
+  let cands := sortBy (fun a b => nextStamp reqs s a < nextStamp reqs s b) cands
+  for i in cands do
+    let t := s.clients[i]!
+    let r := cstep cfg s.node t
+    let t' := r.2
+    let finished := t'.inflight.isNone
+    -- a finished request must have produced the observed answer
+    let ok := !finished || (match t'.got.head?, (reqs[i]!)[s.done[i]!]? with
+      | some resp, some q => showResp resp == q.obs
+      | _, _ => false)
+    if ok then
+      let s' : SearchSt := { node := r.1, clients := s.clients.set! i t',
+                              done := if finished then s.done.set! i (s.done[i]! + 1) else s.done, sched := i :: s.sched }
+      match ← dfs cfg reqs budget s' with
+      | some f => return some f
+      | none => pure ()
+  return none
+
+/-- the canonical schedule (look-up at t0, handler at t1), used to print the model's answers when no
+linearisation reproduces the observed ones -/
+def canonicalSched (cfg : Cfg) (reqs : Array (Array SReq)) (node : Node) (clients : Array Client) : List Nat := Id.run do
+  let mut s : SearchSt := { node := node, clients := clients, done := Array.replicate reqs.size 0, sched := [] }
+  let total := (reqs.toList.map (·.size)).sum
+  for _ in [0:2 * total + 1] do
+    let cands := (List.range reqs.size).filter fun i => (s.clients[i]!).inflight.isSome || s.done[i]! < (reqs[i]!).size
+    match (sortBy (fun a b => nextStamp reqs s a < nextStamp reqs s b) cands).head? with
+    | none => break
+    | some i =>
+      let r := cstep cfg s.node (s.clients[i]!)
+      let finished := r.2.inflight.isNone
+      s := { node := r.1, clients := s.clients.set! i r.2,
+             done := if finished then s.done.set! i (s.done[i]! + 1) else s.done, sched := i :: s.sched }
+  return s.sched.reverse
+
+/-- the storm between the two markers: returns the node afterwards, one answer per buffered line (in line
+order) and the verdict printed for `storm end` -/
+def runStormLines (st : St) (lines : List String) : IO (St × List String × String) := do
+  let parsed := lines.map parseStormLine
+  if parsed.any Option.isNone then return (st, lines.map (fun _ => "bad-op"), "bad-storm")
+  let ps := parsed.filterMap id
+  -- clients in order of first appearance
+  let keys := (ps.map (·.1)).eraseDups
+  let idxOf := fun (k : Nat) => (keys.findIdx? (· == k)).getD 0
+  let reqs : Array (Array SReq) := (keys.map fun k => ((ps.filter (·.1 == k)).map (·.2.2)).toArray).toArray
+  let users : Array Bytes := (keys.map fun k => ((ps.find? (·.1 == k)).map (·.2.1)).getD []).toArray
+  let clients : Array Client := (List.range keys.length).toArray.map fun i =>
+    { user := users[i]!, todo := (reqs[i]!).toList.map (·.op) }
+  let budget ← IO.mkRef 200000
+  let found ← dfs st.cfg reqs budget { node := st.node, clients := clients, done := Array.replicate reqs.size 0, sched := [] }
+  let (sched, verdict) := match found with
+    | some f => (f.sched.reverse, "ok")
+    | none => (canonicalSched st.cfg reqs st.node clients, "no-linearisation")
+  -- THE model run: `crun` on the schedule
+  let out := crun st.cfg st.node clients.toList sched
+  let answers : Array (Array String) := (out.2.map fun t => (t.got.reverse.map showResp).toArray).toArray
+  -- print per line: the j-th request of its client
+  let mut seen : Array Nat := Array.replicate keys.length 0
+  let mut outs : List String := []
+  for p in ps do
+    let i := idxOf p.1
+    let j := seen[i]!
+    seen := seen.set! i (j + 1)
+    outs := ((answers[i]!)[j]?.getD "no-answer") :: outs
+  return ({ st with node := out.1 }, outs.reverse, verdict)
+
 def stepLine (st : St) (line : String) : St × String :=
   let toks := (line.trimAscii.toString.splitOn " ").filter (· ≠ "")
-  -- `w=<client>`: a request of the concurrent phase; the model runs the clients' requests in the order
-  -- of the lines (one linearisation — C16_concurrent: the answers to a tenant do not depend on it)
+  -- `w=<client>` outside `storm begin … storm end` (old replay files): run in the order of the lines
   let toks := match toks with
     | t :: rest => if t.startsWith "w=" then rest else toks
     | [] => toks
@@ -106,6 +238,27 @@ def stepLine (st : St) (line : String) : St × String :=
 
 end Sema.C16
 
+open Sema.C16 in
+/-- the driver loop: line by line, except that the requests of a storm are buffered and answered at `storm end` -/
+partial def Sema.C16.driverLoop (stdin stdout : IO.FS.Stream) (st : Sema.C16.St) (buf : Option (List String)) : IO Unit := do
+  let line ← stdin.getLine
+  if line.isEmpty then return ()
+  let toks := (line.trimAscii.toString.splitOn " ").filter (· ≠ "")
+  match buf, toks with
+  | none, ["storm", "begin"] =>
+    stdout.putStrLn "ok"
+    Sema.C16.driverLoop stdin stdout st (some [])
+  | some ls, ["storm", "end"] =>
+    let (st', outs, verdict) ← runStormLines st ls.reverse
+    for o in outs do stdout.putStrLn o
+    stdout.putStrLn verdict
+    Sema.C16.driverLoop stdin stdout st' none
+  | some ls, _ => Sema.C16.driverLoop stdin stdout st (some (line :: ls))
+  | none, _ =>
+    let (st', o) := stepLine st line
+    stdout.putStrLn o
+    Sema.C16.driverLoop stdin stdout st' none
+
 def Sema.C16.driverMain (stdin stdout : IO.FS.Stream) (_args : List String) : IO Unit :=
-  Sema.loopState stdin stdout Sema.C16.stepLine
-    { cfg := ⟨Sema.C16.root0, Sema.C16.dir0, .fixed, 2, 6⟩, node := {} }
+  Sema.C16.driverLoop stdin stdout
+    { cfg := ⟨Sema.C16.root0, Sema.C16.dir0, .fixed, 2, 6⟩, node := {} } none
